@@ -111,10 +111,11 @@ type endpoint struct {
 	fr  *http2.Framer
 	wmu sync.Mutex // serialises writes to fr (held across a whole header block)
 
-	encMu  sync.Mutex
-	enc    *hpack.Encoder
-	encBuf bytes.Buffer
-	dec    *hpack.Decoder
+	encMu      sync.Mutex
+	enc        *hpack.Encoder
+	encBuf     bytes.Buffer
+	dec        *hpack.Decoder
+	htsAllowed uint32 // largest table size the peer's encoder may use (what we announced)
 
 	ctlMu   sync.Mutex
 	ctlQ    []func()
@@ -154,11 +155,11 @@ type endpoint struct {
 	nBarrier int
 	frames   int64
 	blocked  map[uint32]int64 // streams whose DATA is certainly held back by our windows -> clock
-	grants   []int64 // event clock of every WINDOW_UPDATE / window-raising SETTINGS written
+	grants   []int64          // event clock of every WINDOW_UPDATE / window-raising SETTINGS written
 	readErr  error
 	// observations for coverage classes
 	obsCont, obsEmptyFrag, obsHdrPad, obsDataPad, obsPrio bool
-	maxIncSent                                             uint32
+	maxIncSent                                            uint32
 }
 
 // Session runs one generated plan through h2.Config.Proxy and checks it.
@@ -215,8 +216,8 @@ var ownClauses = map[string]map[string]bool{
 // property abort the session and are reported; clauses of the sibling property
 // are only remembered (and abort the session when they desynchronise it).
 func (s *Session) find(clause, class, what string, witness interface{}) {
-	if s.tearing {
-		return
+	if s.tearing || len(s.Findings) > 0 {
+		return // only the first violated clause of a session is reported; later ones are consequences
 	}
 	f := Finding{Clause: clause, Class: class, What: what, Witness: witness}
 	if ownClauses[s.Prop][clause] {
@@ -229,6 +230,20 @@ func (s *Session) find(clause, class, what string, witness interface{}) {
 		}
 	}
 	s.bump()
+}
+
+// connFail records a failure of the relayed connection (s.mu held): before the
+// first PING round trip it is attributed to the connection preface clause.
+func (s *Session) connFail(class, what string) {
+	if !s.setupDone {
+		cls := "whole-preface"
+		if s.Plan.PrefaceCut > 0 {
+			cls = "split-read"
+		}
+		s.find("preface", cls, "before the first PING round trip: "+what, nil)
+		return
+	}
+	s.find("connection", class, what, nil)
 }
 
 func (s *Session) activity() string {
@@ -330,6 +345,7 @@ func newEndpoint(s *Session, idx int) *endpoint {
 		endSent: map[uint32]bool{}, endRecv: map[uint32]bool{}, barrier: map[[8]byte]bool{}}
 	e.enc = hpack.NewEncoder(&e.encBuf)
 	e.dec = hpack.NewDecoder(4096, nil)
+	e.htsAllowed = 4096
 	return e
 }
 
@@ -389,9 +405,9 @@ func (e *endpoint) closedFor(id uint32) bool {
 // session setup / teardown
 
 type segState struct {
-	rng   *rand.Rand
-	class string
-	first int // preface cut: size of the very first read (0 = none)
+	rng       *rand.Rand
+	class     string
+	first     int // preface cut: size of the very first read (0 = none)
 	preface   bool
 	delivered int
 }
@@ -497,15 +513,7 @@ func (s *Session) Run() {
 		err := <-s.proxyDone
 		s.mu.Lock()
 		if !s.tearing {
-			cls := "whole-preface"
-			if s.Plan.PrefaceCut > 0 {
-				cls = "split-read"
-			}
-			if s.setupDone {
-				s.find("connection", "proxy-returned", fmt.Sprintf("Config.Proxy returned during the session (err=%v)", err), nil)
-			} else {
-				s.find("preface", cls, fmt.Sprintf("Config.Proxy returned before the first PING round trip (err=%v)", err), nil)
-			}
+			s.connFail("proxy-returned", fmt.Sprintf("Config.Proxy returned during the session (err=%v)", err))
 		}
 		s.mu.Unlock()
 		s.proxyDone <- err
